@@ -663,3 +663,106 @@ Proof.
   split. { cbn [app]. rewrite <- app_assoc in I3. exact I3. }
   split. exact C3. split. congruence. lia.
 Qed.
+
+Fixpoint cgens (gens : list gen) (first : bool) : bool :=
+  match gens with [] => true | g :: r => c3_gen first g && cgens r false end.
+Lemma cgens_eq : forall gens first,
+  (fix go (l : list gen) (first : bool) : bool := match l with [] => true | g :: r => c3_gen first g && go r false end) gens first
+  = cgens gens first.
+Proof. induction gens as [|g r IH]; intro first. reflexivity. cbn [cgens]. rewrite IH. reflexivity. Qed.
+
+Lemma gens_fold : forall gens, Forall PG gens -> forall first, cgens gens first = true ->
+  forall exp l L' acc accs ex s e tr c0 C0 k ks0,
+  Inv2 exp l L' acc accs ex s e tr -> CX exp ex s (c0 :: C0) -> CE (c0 :: C0) (k :: ks0) ->
+  (first = true -> cs_acc c0 = []) -> incl (flat_map gen_tnames gens) (cs_T c0) ->
+  let c0' := mkCS (cs_id c0) (cs_T c0) (cs_acc c0 ++ flat_map gen_tnames gens) in
+  CPost exp l L' acc accs ex s e tr (vgens false gens (stack_of (l :: L') ++ cids (c0 :: C0)) s)
+        (snd (sem_gens (lineno s) (ks0 ++ e) gens first k)) (c0' :: C0) /\
+  CE (c0' :: C0) (fst (sem_gens (lineno s) (ks0 ++ e) gens first k) :: ks0).
+Proof.
+  intros gens HF. induction HF as [|g gens Hg HF IH]; intros first Hs exp l L' acc accs ex s e tr c0 C0 k ks0 HI HX HCE Hfirst Hin; cbv zeta.
+  - cbn [flat_map vgens fold_left sem_gens fst snd]. rewrite app_nil_r. destruct c0 as [i T0 a0]. cbn [cs_id cs_T cs_acc].
+    split. apply CPost_refl; auto. exact HCE.
+  - cbn [cgens] in Hs. apply andb_true_iff in Hs as [H1 H2]. cbn [flat_map] in Hin |- *.
+    destruct (Hg first H1 _ _ _ _ _ _ _ _ _ c0 C0 k ks0 HI HX HCE Hfirst) as [P1 HCE1].
+    { intros y Hy. apply Hin. apply in_app_iff. auto. }
+    cbv zeta in P1, HCE1.
+    unfold vgens. cbn [fold_left sem_gens].
+    destruct (sem_gen (lineno s) (ks0 ++ e) k first g) as [k1 ra] eqn:Eg. cbn [fst snd] in P1, HCE1.
+    set (c1 := mkCS (cs_id c0) (cs_T c0) (cs_acc c0 ++ gen_tnames g)) in *.
+    set (s1 := vgen false g (stack_of (l :: L') ++ cids (c0 :: C0)) s) in *.
+    assert (Eln : lineno s1 = lineno s). { destruct P1 as (? & _ & _ & _ & E & _). exact E. }
+    destruct (sem_gens (lineno s) (ks0 ++ e) gens false k1) as [k2 rb] eqn:Egs. cbn [fst snd].
+    assert (G : forall exp1, Inv2 exp1 l L' acc accs ex s1 e (tr ++ ra) -> CX exp1 ex s1 (c1 :: C0) ->
+                CPost exp1 l L' acc accs ex s1 e (tr ++ ra) (fold_left (fun s0 g0 => vgen false g0 (stack_of (l :: L') ++ cids (c0 :: C0)) s0) gens s1) rb
+                      (mkCS (cs_id c0) (cs_T c0) (cs_acc c0 ++ gen_tnames g ++ flat_map gen_tnames gens) :: C0) /\
+                CE (mkCS (cs_id c0) (cs_T c0) (cs_acc c0 ++ gen_tnames g ++ flat_map gen_tnames gens) :: C0) (k2 :: ks0)).
+    { intros exp1 I1 X1.
+      destruct (IH false H2 _ _ _ _ _ _ _ _ _ c1 C0 k1 ks0 I1 X1 HCE1) as [P2 HCE2].
+      { discriminate. } { intros y Hy. apply Hin. apply in_app_iff. auto. }
+      cbv zeta in P2, HCE2. rewrite Eln, Egs in P2, HCE2. cbn [fst snd cs_id cs_T cs_acc c1] in P2, HCE2.
+      rewrite <- app_assoc in P2, HCE2. split. exact P2. exact HCE2. }
+    split.
+    + eapply CPost_seq. exact P1. intros exp1 I1 X1. apply (G exp1 I1 X1).
+    + destruct P1 as (exp1 & _ & I1 & X1 & _). apply (G exp1 I1 X1).
+Qed.
+
+Lemma gen_targets_eq : forall gens, gen_targets gens = flat_map gen_tnames gens.
+Proof. reflexivity. Qed.
+
+Lemma comp_case : forall gens elts, Forall PG gens -> Forall PC elts -> c3_expr (EComp gens elts) = true ->
+  forall exp l L' acc accs ex s e tr Cf ks,
+  Inv2 exp l L' acc accs ex s e tr -> CX exp ex s Cf -> CE Cf ks ->
+  CPost exp l L' acc accs ex s e tr (vexpr false (EComp gens elts) (stack_of (l :: L') ++ cids Cf) s)
+        (sem_expr (lineno s) (ks ++ e) (EComp gens elts)) Cf.
+Proof.
+  intros gens elts HG HE Hs exp l L' acc accs ex s e tr Cf ks HI HX HCE.
+  cbn [c3_expr] in Hs. rewrite cgens_eq, c3go_eq in Hs. apply andb_true_iff in Hs as [Hg He].
+  rewrite vexpr_comp_eq, sem_comp_eq.
+  pose proof (st_sinv _ _ _ _ _ (i_st _ _ _ _ _ _ _ _ _ HI)) as HS0.
+  rewrite push_S by exact HS0. cbv beta iota zeta.
+  set (K := next_id s). set (s1 := snd (new_scope s KNormal [])). set (T0 := gen_targets gens).
+  destruct (center exp l L' acc accs ex s e tr Cf T0 HI HX) as (I1 & X1 & Nx1 & Ln1 & Xe & Hk).
+  cbv zeta in I1, X1, Nx1, Ln1, Xe, Hk. fold K s1 in I1, X1, Nx1, Ln1, Xe, Hk.
+  set (cK := mkCS K T0 []) in *.
+  assert (Estk : (stack_of (l :: L') ++ cids Cf) ++ [K] = stack_of (l :: L') ++ cids (cK :: Cf)).
+  { rewrite cids_cons, app_assoc. reflexivity. }
+  rewrite Estk.
+  assert (HCE1 : CE (cK :: Cf) (comp_frame T0 :: ks)) by (constructor; auto).
+  destruct (gens_fold gens HG true Hg _ _ _ _ _ _ _ _ _ cK Cf (comp_frame T0) ks I1 X1 HCE1) as [P2 HCE2].
+  { reflexivity. } { rewrite <- gen_targets_eq. apply incl_refl. }
+  cbv zeta in P2, HCE2. rewrite Ln1 in P2, HCE2.
+  destruct (sem_gens (lineno s) (ks ++ e) gens true (comp_frame T0)) as [k r1] eqn:Egs. cbn [fst snd] in P2, HCE2.
+  cbn [cs_id cs_T cs_acc cK app] in P2, HCE2. rewrite <- gen_targets_eq in P2, HCE2. fold T0 in P2, HCE2.
+  set (cK' := mkCS K T0 T0) in *.
+  destruct P2 as (exp2 & X2 & I2 & C2 & Ln2 & N2).
+  set (s2 := vgens false gens (stack_of (l :: L') ++ cids (cK :: Cf)) s1) in *.
+  (* the elements *)
+  assert (P3 : CPost exp2 l L' acc accs (K :: ex) s2 e (tr ++ r1)
+                     (vexpr_list false elts (stack_of (l :: L') ++ cids (cK' :: Cf)) s2) (sem_exprs (lineno s2) ((k :: ks) ++ e) elts) (cK' :: Cf)).
+  { apply (cexprs elts HE He _ _ _ _ _ _ _ _ _ (cK' :: Cf) (cK' :: Cf) (k :: ks) I2 C2 HCE2). left; reflexivity. discriminate. left; reflexivity. }
+  change (cids (cK' :: Cf)) with (cids (cK :: Cf)) in P3.
+  destruct P3 as (exp3 & X3 & I3 & C3 & Ln3 & N3).
+  set (s3 := vexpr_list false elts (stack_of (l :: L') ++ cids (cK :: Cf)) s2) in *.
+  rewrite pop_S by apply (st_sinv _ _ _ _ _ (i_st _ _ _ _ _ _ _ _ _ I3)).
+  destruct (cleave exp3 l L' acc accs ex s3 e _ cK' Cf I3 C3) as [I4 C4]. { auto. }
+  exists exp3. split.
+  { intros i Hi. fold K in Hi. rewrite (X3 i), (X2 i), (Xe i) by lia. reflexivity. }
+  assert (Eln2 : lineno s2 = lineno s) by congruence. rewrite Eln2 in I4.
+  split. { rewrite <- app_assoc in I4. exact I4. }
+  split. exact C4. split. congruence. lia.
+Qed.
+
+Lemma cexpr_inv : forall x, PC x.
+Proof.
+  intro x. induction x using expr_ind' with (Q := PG); unfold PC; try (intros Hs exp l L' acc accs ex s e tr Cf C ks HI HX HCE Hsh Hne H1).
+  - (* ELoad *) cbn [vexpr sem_expr]. destruct (cload exp l L' acc accs ex s e tr Cf C ks n a HI HX HCE Hsh Hne) as (exp' & X & I' & C' & Ln & Nx).
+    exists exp'. auto.
+  - (* EOp *) cbn [vexpr sem_expr c3_expr s1_expr] in *. rewrite vgo_eq, sgo_eq. rewrite c3go_eq in Hs. rewrite s1go_eq in H1. apply (cexprs es H Hs _ _ _ _ _ _ _ _ _ Cf C ks); auto.
+  - (* EAttr *) cbn [vexpr sem_expr c3_expr s1_expr] in *. apply (IHx Hs _ _ _ _ _ _ _ _ _ Cf C ks); auto.
+  - (* ELambda *) cbn in Hs. discriminate.
+  - (* EComp *)
+    assert (EC : C = Cf). { destruct H1 as [H1|H1]; auto. cbn in H1. discriminate. } subst C.
+    apply comp_case; auto.
+  - (* a generator *) apply gen_case; auto.
+Qed.
